@@ -415,6 +415,12 @@ pub trait SVDDecomposableMatrix<T: RealNumber>: BaseMatrix<T> {
             }
         }
 
+        // a wide matrix (m < n) has at most m non-zero singular values: the trailing n - m computed
+        // ones are rounding noise, which must not survive the rank threshold of `solve`
+        for w_k in w.iter_mut().take(n).skip(m) {
+            *w_k = T::zero();
+        }
+
         for k in 0..n {
             let mut s = 0.;
             for i in 0..m {
